@@ -123,12 +123,17 @@ package memdb
 //@   props C02 C11
 //@   trusted
 
+// (C09 / C14: a move takes the read lock of the table itself; a goroutine that already holds it - a move that calls
+// another move with the lock held - takes it twice, and a writer that asks for the lock in between blocks both for good.
+// sync.RWMutex forbids recursive read locking for that reason. The lock is unexported: only this package can hold it.)
 // C14 (iterator): every move leaves the iterator facing the way it moved - forward after First / Seek / Next,
 // backward after Last / Prev - so that stepping off one end and calling the opposite move re-enters from that end
 // and calling the same move again stays off the end. Seek lands on a key not smaller than its target.
 //@ func (*dbIter).Seek
-//@   props C14 C02
+//@   props C14 C02 C18 C09
 //@   safety off
+//@   requires [C09,C14:the-iterator-is-not-moved-by-a-goroutine-that-holds-the-read-lock] i.p == nil || rheld(i.p.mu) == 0
+//@   ensures [C02,C14,C18:a-released-iterator-reports-that-it-was-released] old(i.BasicReleaser.released) ==> (!result && i.err == ErrIterReleased)
 //@   requires !sameblock(i.p.nodeData, i.p.prevNode[:])
 //@   ensures [C02,C14:facing-forward-after-a-forward-move] (old(i.err) == nil && i.err == nil) ==> i.forward
 //@   guarantees [C14:seek-lands-on-a-key-not-smaller-than-the-target] result ==> mcmp(bytes(i.key), bytes(key)) >= 0
@@ -137,8 +142,10 @@ package memdb
 //@   at before call (*dbIter).fill#1
 //@     assert [C02,C14:a-forward-move-is-checked-against-the-limit] arg1
 //@ func (*dbIter).First
-//@   props C14 C02
+//@   props C14 C02 C18 C09
 //@   safety off
+//@   requires [C09,C14:the-iterator-is-not-moved-by-a-goroutine-that-holds-the-read-lock] i.p == nil || rheld(i.p.mu) == 0
+//@   ensures [C02,C14,C18:a-released-iterator-reports-that-it-was-released] old(i.BasicReleaser.released) ==> (!result && i.err == ErrIterReleased)
 //@   requires !sameblock(i.p.nodeData, i.p.prevNode[:])
 //@   ensures [C02,C14:facing-forward-after-a-forward-move] (old(i.err) == nil && i.err == nil) ==> i.forward
 //@   at before call (*DB).findGE#1
@@ -147,8 +154,10 @@ package memdb
 //@     assert [C02,C14:a-forward-move-is-checked-against-the-limit] arg1
 //@     assert [C02,C14:first-without-a-start-is-the-head-of-the-bottom-list] (i.slice == nil || isnil(i.slice.Start)) ==> i.node == i.p.nodeData[4]
 //@ func (*dbIter).Next
-//@   props C14 C02
+//@   props C14 C02 C18 C09
 //@   safety off
+//@   requires [C09,C14:the-iterator-is-not-moved-by-a-goroutine-that-holds-the-read-lock] i.p == nil || rheld(i.p.mu) == 0
+//@   ensures [C02,C14,C18:a-released-iterator-reports-that-it-was-released] old(i.BasicReleaser.released) ==> (!result && i.err == ErrIterReleased)
 //@   requires !sameblock(i.p.nodeData, i.p.prevNode[:])
 //@   ensures [C02,C14:facing-forward-after-a-forward-move] (old(i.err) == nil && i.err == nil) ==> i.forward
 //@   ensures [C02,C14:next-stays-off-the-forward-end] (old(i.err) == nil && i.err == nil && old(i.node) == 0 && old(i.forward)) ==> (!result && i.node == 0)
@@ -156,8 +165,10 @@ package memdb
 //@     assert [C02,C14:a-forward-move-is-checked-against-the-limit] arg1
 //@     assert [C02,C14:next-moves-to-the-successor-in-the-bottom-list] i.node == i.p.nodeData[old(i.node)+4]
 //@ func (*dbIter).Last
-//@   props C14 C02
+//@   props C14 C02 C18 C09
 //@   safety off
+//@   requires [C09,C14:the-iterator-is-not-moved-by-a-goroutine-that-holds-the-read-lock] i.p == nil || rheld(i.p.mu) == 0
+//@   ensures [C02,C14,C18:a-released-iterator-reports-that-it-was-released] old(i.BasicReleaser.released) ==> (!result && i.err == ErrIterReleased)
 //@   ensures [C02,C14:facing-backward-after-a-backward-move] (old(i.err) == nil && i.err == nil) ==> !i.forward
 //@   at before call (*DB).findLT#1
 //@     assert [C02,C14:last-searches-below-the-limit-of-the-range] sameslice(arg0, i.slice.Limit)
@@ -166,8 +177,10 @@ package memdb
 //@   at before call (*dbIter).fill#1
 //@     assert [C02,C14:a-backward-move-is-checked-against-the-start] arg0
 //@ func (*dbIter).Prev
-//@   props C14 C02
+//@   props C14 C02 C18 C09
 //@   safety off
+//@   requires [C09,C14:the-iterator-is-not-moved-by-a-goroutine-that-holds-the-read-lock] i.p == nil || rheld(i.p.mu) == 0
+//@   ensures [C02,C14,C18:a-released-iterator-reports-that-it-was-released] old(i.BasicReleaser.released) ==> (!result && i.err == ErrIterReleased)
 //@   ensures [C02,C14:facing-backward-after-a-backward-move] (old(i.err) == nil && i.err == nil) ==> !i.forward
 //@   ensures [C02,C14:prev-stays-off-the-backward-end] (old(i.err) == nil && i.err == nil && old(i.node) == 0 && !old(i.forward)) ==> (!result && i.node == 0)
 //@   at before call (*DB).findLT#1
